@@ -6,4 +6,4 @@ Extraction "c11_model.ml" cma_update select recombine cov_update elitist_step el
   chrom_sigma chrom_round chrom_offspring chrom_parent active_rate ecma_chrom_step
   vd_first vd_second vd_D_update vd_v_update vd_cov vd_update vd_sample
   sd_init sd_step sd_run cem_noise_const cem_noise_linear cem_sample cem_update cem_select_update cem_step cem_run
-  cma_step cma_run cmsa_step cmsa_run.
+  cma_offspring cma_step cma_run cmsa_offspring cmsa_step cmsa_run.
